@@ -29,8 +29,12 @@ def main():
     try:
         mod.run(R)
         # at-scale search: whenever something no longer checks and no small failing input was found; always in the thorough tier
+        import pins
+        changed = pins.tree_changed(vlib.REPO)      # any byte of the library differs from the tree the pins were taken from (no alarm by itself)
+        if changed:
+            R.notes.append("library sources differ from the pinned tree")
         if hasattr(mod, "scale") and (tier == "thorough" or os.environ.get("VERIF_SCALE") == "1"
-                                      or ((R.red or R.disagreements) and not R.failures)):
+                                      or (((R.red or R.disagreements) or changed) and not R.failures)):
             R.notes.append("at-scale search run")
             mod.scale(R)
     except vlib.Hang:   # the implementation never came back from a call: a finding with the last case as its replay
